@@ -164,7 +164,7 @@ def _activation_matrix(indices_list, weights, n_jobs):
     if n_jobs == 1:
         activations = np.empty(activations_dim, dtype=np.float64)
         for row, event_cues in enumerate(indices_list):
-            activations[:, row] = weights[:, event_cues].sum(axis=1)
+            activations[:, row] = weights[:, event_cues].sum(axis=1, dtype=np.float64)
         return activations
     else:
         shared_activations = mp.RawArray(ctypes.c_double, int(np.prod(activations_dim)))
